@@ -58,6 +58,10 @@ ASSUMPTIONS = [
 BUDGET = {"quick": 120, "thorough": 900}
 EXHAUSTIVE = {"quick": False, "thorough": False}
 
+# documented positional order of the anchored functions at /repo HEAD 8caea4c (a literal, NOT read from the code under test)
+DAC_ORDER = ["input", "bias", "Vout", "pulse_shape", "BW"]
+SAMPLER_ORDER = ["input", "instant"]
+
 NRZ = ["rect", "nrz", "NRZ"]
 RZ = ["rz", "RZ"]
 GAUSS = ["gaussian", "GAUSSIAN"]
@@ -274,6 +278,40 @@ def gen_cases(rng, tier):
         # keywords are ignored by the NRZ / RZ branches
         cases.append({"kind": "validate", "form": "list", "bits": [0, 1], "sps": sps, "shape": "rz",
                       "vout": pv("int", 1), "bias": pv("int", 0), "ks": [], "kw": {"T": pv("str", "x"), "m": pv("int", -1)}})
+    # --- every invalid value crossed with every kind of bit sequence (all-zero, all-one, single bits, mixed) and every shape:
+    #     validation must not depend on the data
+    BITS_POOL = [[0], [1], [0, 0, 0], [1, 1, 1], [0, 1, 0], [1, 0, 0, 1], [0, 0, 0, 0, 0, 0], [1, 1]]
+    bad_levels = [pv("int", 48), pv("int", -49), pv("float", 48.0), pv("float", -1e6), pv("inf", 1), pv("str", "1"),
+                  pv("complex", 1.0), pv("list", 1.0), pv("npint", 3)]
+    nform = 0
+    for shape in NRZ + RZ + GAUSS:
+        for bits in BITS_POOL:
+            for bad in bad_levels:
+                for which in ("vout", "bias"):
+                    nform += 1
+                    c = {"kind": "validate", "form": FORMS[nform % len(FORMS)], "bits": bits, "sps": 8 if nform % 2 else 9, "shape": shape,
+                         "vout": pv("float", -2.0), "bias": pv("float", 0.25), "ks": [], "kw": {}}
+                    c[which] = bad
+                    cases.append(c)
+    for sps in [8, 9]:
+        badT = [pv("int", k) for k in (-1, 0, 2 * sps + 1, 3 * sps)] + [pv("float", 8.5), pv("float", float(sps)), pv("str", "4"),
+                                                                         pv("None"), pv("list", 4), pv("complex", 1.0), pv("npint", sps)]
+        badm = [pv("int", 0), pv("int", -3), pv("float", 1.5), pv("float", 1.0), pv("str", "1"), pv("None"), pv("list", 1), pv("npint", 2)]
+        badc = [pv("complex", 1.0), pv("str", "0"), pv("None"), pv("list", 0)]
+        good = [("T", pv("int", 1)), ("T", pv("int", 2 * sps)), ("m", pv("int", 4)), ("c", pv("float", -1.5)), ("m", pv("bool", True))]
+        for bits in BITS_POOL:
+            for name, vals in (("T", badT), ("m", badm), ("c", badc)):
+                for val in vals:
+                    nform += 1
+                    for shape in (["gaussian", "GAUSSIAN"] if nform % 3 else ["gaussian", "nrz", "rz"]):
+                        cases.append({"kind": "validate", "form": FORMS[nform % len(FORMS)], "bits": bits, "sps": sps, "shape": shape,
+                                      "vout": pv("float", 1.5), "bias": pv("float", -0.5), "ks": [], "kw": {name: val}})
+            for name, val in good:
+                cases.append({"kind": "validate", "form": "list", "bits": bits, "sps": sps, "shape": "gaussian",
+                              "vout": pv("float", 1.5), "bias": pv("float", -0.5), "ks": [], "kw": {name: val}})
+            # two faults at once on every kind of data: the first failing check decides
+            cases.append({"kind": "validate", "form": "str", "bits": bits, "sps": sps, "shape": "gaussian", "vout": pv("str", "a"),
+                          "bias": pv("int", 99), "ks": [], "kw": {"T": pv("int", 0), "m": pv("float", 2.0)}})
     for name in ["Rect", "nrZ", "gauss", "Gaussian", "RZ ", "", "square", None, 3, ["nrz"]]:
         cases.append({"kind": "validate", "form": "list", "bits": [0, 1], "sps": 4, "shape": name, "vout": pv("float", 1.0),
                       "bias": pv("float", 0.0), "ks": [], "kw": {}})
@@ -304,6 +342,13 @@ def gen_cases(rng, tier):
                 if rng.random() < 0.35:     # chirped pulse, arbitrary pattern: correspondence of the complex waveform only
                     cases.append({"kind": "gauss", "sps": sps, "T": T, "m": m, "bits": _bits(rng, rng.randrange(1, 9)),
                                   "vout": vout, "bias": bias, "c": rng.choice([1.5, -2.0, 1, 0.25])})
+        # an isolated 1 next to runs of two or more adjacent 1s: the isolated one must still reach Vout within 5 % by itself
+        mixed = [[0, 0, 0, 1, 0, 0, 0, 1, 1, 0, 0, 0], [0, 0, 0, 1, 1, 1, 0, 0, 0, 1, 0, 0, 0], [1, 1, 0, 0, 0, 1, 0, 0, 0, 1, 1, 1, 1],
+                 [0, 0, 0, 1, 0, 0, 0, 1, 0, 0, 0, 1, 1, 0, 0, 0]]
+        for T in ([sps, 2 * sps] if quick else [sps, (3 * sps) // 2, 2 * sps - 1, 2 * sps]):
+            for m in ([1, rng.randrange(2, 5)] if quick else [1, 2, 3, 4]):
+                cases.append({"kind": "gauss", "sps": sps, "T": T, "m": m, "bits": rng.choice(mixed),
+                              "vout": rng.choice([1.0, -2.5, 5, 47.5]), "bias": rng.choice([0.0, 0.5, -1])})
         # default T (= sps), arbitrary pattern: round trip at k = sps//2
         for _ in range(2 if quick else 10):
             cases.append({"kind": "gauss", "sps": sps, "T": None, "m": rng.randrange(1, 5),
@@ -325,6 +370,44 @@ def _set_gv(sps):
         gv(sps=sps, R=1e9)
 
 
+def _outcome(fn, args, kwargs, limit=20):
+    """('ok', result) | ('err', enum, detail) | ('timeout', detail)"""
+    try:
+        with time_limit(limit):
+            return ("ok", fn(*args, **kwargs))
+    except Timeout as e:
+        return ("timeout", str(e))
+    except Exception as e:  # noqa
+        return ("err", exc_enum(e), repr(e)[:200])
+
+
+def _same_outcome(a, b):
+    """None if the keyword call `a` and its positional twin `b` agree bit for bit, else a description"""
+    import numpy as np
+    if a[0] != b[0]:
+        return f"keyword call {a[0]} {a[1] if a[0] != 'ok' else ''}, positional call {b[0]} {b[1] if b[0] != 'ok' else ''}"
+    if a[0] == "err":
+        return None if a[1] == b[1] else f"keyword call raised {a[1]}, positional call raised {b[1]}"
+    if a[0] != "ok":
+        return None
+    x, y = a[1], b[1]
+    for name in ("signal", "noise"):
+        u, w = getattr(x, name), getattr(y, name)
+        if (u is None) != (w is None):
+            return f".{name}: None in one call only"
+        if u is not None:
+            u, w = np.asarray(u), np.asarray(w)
+            if u.dtype != w.dtype or u.shape != w.shape or u.tobytes() != w.tobytes():
+                k = int(np.flatnonzero(~(u == w))[0]) if u.shape == w.shape and np.any(~(u == w)) else -1
+                return f".{name} differs (dtype {u.dtype}/{w.dtype}, shape {u.shape}/{w.shape}, first at {k}: " \
+                       f"{u.flat[k] if k >= 0 else ''!r} vs {w.flat[k] if k >= 0 else ''!r})"
+    return None
+
+
+def _by_order(order, values):
+    return [values[name] for name in order]
+
+
 def run_impl(case):
     import numpy as np
     from opticomlib.typing import gv, electrical_signal
@@ -335,6 +418,8 @@ def run_impl(case):
         if case["kind"] == "sampler":
             x = electrical_signal(np.array(case["sig"], dtype=float),
                                   None if case["noise"] is None else np.array(case["noise"], dtype=float))
+            res["positional_sampler"] = _same_outcome(_outcome(SAMPLER, (), {"input": x, "instant": case["k"]}),
+                                                      _outcome(SAMPLER, _by_order(SAMPLER_ORDER, {"input": x, "instant": case["k"]}), {}))
             with time_limit(20):
                 y = SAMPLER(x, case["k"])
             res.update(status="ok", cls=type(y).__name__, signal=[float(v) for v in y.signal],
@@ -369,6 +454,9 @@ def run_impl(case):
                     y = DAC(case["bits"], Vout=case["vout"], bias=case["bias"], pulse_shape="gaussian", **kw)
             finally:
                 dev.sg = real_sg
+            twin = _outcome(DAC, _by_order(DAC_ORDER, {"input": list(case["bits"]), "bias": case["bias"], "Vout": case["vout"],
+                                                        "pulse_shape": "gaussian", "BW": None}), kw)
+            res["positional"] = _same_outcome(("ok", y), twin)
             sig = np.asarray(y.signal)
             res.update(status="ok", cls=type(y).__name__, n=int(sig.size), imag=float(np.max(np.abs(sig.imag))),
                        real=[float(v) for v in sig.real], imags=[float(v) for v in sig.imag], noise_none=y.noise is None)
@@ -383,13 +471,28 @@ def run_impl(case):
             with time_limit(20):
                 s = SAMPLER(y, case["sps"] // 2)
             res["sampled"] = [float(v) for v in np.asarray(s.signal).real]
+            res["positional_sampler"] = _same_outcome(_outcome(SAMPLER, (), {"input": y, "instant": case["sps"] // 2}),
+                                                      _outcome(SAMPLER, _by_order(SAMPLER_ORDER, {"input": y, "instant": case["sps"] // 2}), {}))
             return res
         # wave / validate
         inp = build_input(case["form"], case["bits"])
         inp_copy = None if not isinstance(inp, np.ndarray) else inp.copy()
         kw = {k: to_py(v) for k, v in case["kw"].items()}
-        with time_limit(20):
-            y = DAC(inp, bias=to_py(case["bias"]), Vout=to_py(case["vout"]), pulse_shape=case["shape"], **kw)
+        prim = _outcome(DAC, (inp,), dict(bias=to_py(case["bias"]), Vout=to_py(case["vout"]), pulse_shape=case["shape"], **kw))
+        try:
+            inp2 = build_input(case["form"], case["bits"])
+        except Exception:  # noqa  (binary_sequence form of invalid bits)
+            inp2 = list(case["bits"])
+        twin = _outcome(DAC, _by_order(DAC_ORDER, {"input": inp2, "bias": to_py(case["bias"]), "Vout": to_py(case["vout"]),
+                                                    "pulse_shape": case["shape"], "BW": None}), kw)
+        res["positional"] = _same_outcome(prim, twin)
+        if prim[0] == "timeout":
+            res.update(status="timeout", detail=prim[1])
+            return res
+        if prim[0] == "err":
+            res.update(status="err", err=prim[1], detail=prim[2])
+            return res
+        y = prim[1]
         sig = np.asarray(y.signal)
         res.update(status="ok", cls=type(y).__name__, dtype=str(sig.dtype), noise_none=y.noise is None, n=int(sig.size))
         if sig.dtype.kind == "c":
@@ -404,6 +507,9 @@ def run_impl(case):
                 s = SAMPLER(y, k)
             res["samples"][str(k)] = {"signal": [float(v) for v in s.signal], "noise_none": s.noise is None,
                                       "cls": type(s).__name__}
+            d = _same_outcome(_outcome(SAMPLER, (), {"input": y, "instant": k}), ("ok", s))
+            if d:
+                res["positional_sampler"] = d
         res["signal_after"] = [float(v) for v in np.asarray(y.signal)]
     except Timeout as e:
         res.update(status="timeout", detail=str(e))
@@ -684,6 +790,15 @@ def oracle(case, res):
     v = []
     if res.get("status") == "timeout":
         return [("C05:timeout", f"{case['kind']} did not return: {res.get('detail')}")]
+    if res.get("positional"):
+        v.append(("C05:positional:DAC", f"DAC called with {DAC_ORDER} positionally differs from the keyword call "
+                  f"(bits={case.get('bits')}, Vout={case.get('vout')}, bias={case.get('bias')}, shape={case.get('shape', 'gaussian')!r}): "
+                  f"{res['positional']}"))
+    if res.get("positional_sampler"):
+        v.append(("C05:positional:SAMPLER", f"SAMPLER(input, instant) positionally differs from SAMPLER(input=, instant=): "
+                  f"{res['positional_sampler']}"))
+    if v:
+        return v
     kind = case["kind"]
     if kind == "sampler":
         sps, k, sig, noise = case["sps"], case["k"], case["sig"], case["noise"]
@@ -723,20 +838,32 @@ def oracle(case, res):
         Teff = sps if T is None else T
         ones = [j for j, b in enumerate(bits) if b]
         isolated = len(ones) == 1 and 3 <= ones[0] <= len(bits) - 4
-        if isolated and sps >= 8 and sps / 2 <= Teff <= 2 * sps and 1 <= m <= 4:
-            j = ones[0]
-            mx = max(y)
-            plateau = [i for i, t in enumerate(y) if t >= mx - 1e-9]
-            dpos = min(min(abs(i - (j * sps + sps / 2)), abs(i - (j * sps + (sps - 1) / 2))) for i in plateau)
-            if not (dpos <= 1):
-                v.append(("C05:gauss-centre", f"sps={sps} T={Teff} m={m}: peak at sample {plateau[0]}, slot centre {j * sps + sps / 2}"))
-            if not (abs(mx - 1) <= 0.05):
-                v.append(("C05:gauss-peak", f"sps={sps} T={Teff} m={m} Vout={vout}: peak {mx:.4f}·Vout"))
-            if mx > 0:
-                above = [i for i, t in enumerate(y) if t >= mx / 2]
-                width = above[-1] - above[0] + 1
-                if not (abs(width - Teff) <= 1):
-                    v.append(("C05:gauss-fwhm", f"sps={sps} T={Teff} m={m}: {width} samples above half maximum"))
+        # every 1 with at least three 0s on both sides (and three slots from either end) is an isolated 1, whatever else the
+        # sequence holds (runs of adjacent 1s elsewhere): each is judged by its OWN pulse
+        lone = [j for j in ones if 3 <= j <= len(bits) - 4 and not any(bits[q] for q in range(j - 3, j + 4) if q != j)]
+        if lone and sps >= 8 and sps / 2 <= Teff <= 2 * sps and 1 <= m <= 4:
+            for j in lone:
+                lo, hi = (j - 1) * sps, (j + 2) * sps                  # the peak is searched around the slot only
+                mx = max(y[lo:hi])
+                plateau = [i for i in range(lo, hi) if y[i] >= mx - 1e-9]
+                dpos = min(min(abs(i - (j * sps + sps / 2)), abs(i - (j * sps + (sps - 1) / 2))) for i in plateau)
+                tag = f"sps={sps} T={Teff} m={m} Vout={vout} bits={bits} isolated 1 in slot {j}"
+                if not (dpos <= 1):
+                    v.append(("C05:gauss-centre", f"{tag}: peak at sample {plateau[0]}, slot centre {j * sps + sps / 2}"))
+                if not (abs(mx - 1) <= 0.05):
+                    v.append(("C05:gauss-peak", f"{tag}: its peak is {mx:.4f}·Vout"))
+                if mx > 0:
+                    # contiguous run of samples above half of this pulse's maximum, grown from its peak
+                    i0 = i1 = plateau[0]
+                    while i0 - 1 >= 0 and y[i0 - 1] >= mx / 2:
+                        i0 -= 1
+                    while i1 + 1 < len(y) and y[i1 + 1] >= mx / 2:
+                        i1 += 1
+                    width = i1 - i0 + 1
+                    if not (abs(width - Teff) <= 1):
+                        v.append(("C05:gauss-fwhm", f"{tag}: {width} samples above half maximum"))
+                if v:
+                    break
         # round trip at k = sps//2 (T <= sps: neighbouring pulses stay below half level; isolated ones: any T)
         if (Teff <= sps or isolated) and sps >= 8 and Teff >= sps / 2:
             dec = "".join("1" if (s - (bias + vout / 2)) * vout > 0 else "0" for s in res["sampled"])
